@@ -24,6 +24,7 @@ pub const OP_CLONE_RX: u8 = 6;
 pub const OP_DROP_RX: u8 = 7;
 pub const OP_DROP_HELD: u8 = 8;
 pub const OP_PROBE: u8 = 9;
+pub const OP_POLL_RACE: u8 = 10;
 
 pub const CL_TWO_PENDING_AT_SEND: u32 = 0;
 pub const CL_TWO_PENDING_AT_CLOSE: u32 = 1;
@@ -43,6 +44,7 @@ pub const CL_TWO_VALUES_DELIVERED: u32 = 14;
 pub const CL_SHARED_REPOLL: u32 = 15;
 pub const CL_LOSER_NONE: u32 = 16;
 pub const CL_WINDOW_REACTION: u32 = 17;
+pub const CL_RACING_SEND: u32 = 18;
 
 const CLASS_NAMES: &[&str] = &[
     "two-pending-at-send",
@@ -63,6 +65,7 @@ const CLASS_NAMES: &[&str] = &[
     "shared-future-polled-pending-twice",
     "competing-receiver-got-none",
     "acted-inside-the-window-after-unlock",
+    "poll-racing-with-send",
 ];
 
 impl World for OneshotWorld {
@@ -90,7 +93,7 @@ impl World for OneshotWorld {
         // inside wake() whenever the wake-up arrives while the internal lock is free)
         for flavour in [FL_CHECKED, FL_SHARED_CHECKED] {
             for mode in [0u8, 1] {
-                for y in [1u8, 2] {
+                for y in [1u8, 2, 3] {
                     v.push(Cfg { flavour, mode, x: 0, y, k, sw: 0 });
                 }
             }
@@ -122,6 +125,8 @@ impl World for OneshotWorld {
             spec("drop_receiver", if shared { 5 } else { 0 }, 3, 0),
             spec("drop_value", 6, 4, 0),
             spec("probe_after_done", 1, cfg.k, 0),
+            // poll while another thread calls send() at the first instant the internal lock is free
+            spec("poll_racing_send", if cfg.y == 3 { 12 } else { 0 }, cfg.k, 2),
         ]
     }
     fn run(&self, cfg: &Cfg, ops: &[Op], run: &mut Run) {
@@ -151,6 +156,7 @@ impl World for OneshotWorld {
             match cfg.y {
                 1 => " window-reaction=poll",
                 2 => " window-reaction=drop",
+                3 => " racing-send",
                 _ => "",
             }
         )
@@ -311,6 +317,51 @@ fn run_m<M: RawMutex + 'static>(cfg: &Cfg, ops: &[Op], run: &mut Run) {
         };
     }
 
+    // verdict on the result of a send() and its effect on the model
+    macro_rules! apply_send {
+        ($id:expr, $r:expr, $pend_unwoken:expr) => {{
+            let id: u16 = $id;
+            let r = $r;
+            let pend_unwoken: usize = $pend_unwoken;
+                            run.note(|| format!("send(v{}) -> {}", id, if r.is_ok() { "Ok" } else { "Err" }));
+                            if m.st != St::Open {
+                                run.class(CL_SECOND_SEND);
+                            }
+                            match r {
+                                Ok(()) => {
+                                    if m.st != St::Open {
+                                        // C12 itself says that a send after a close fails; whether the channel counts as
+                                        // closed (explicit close or last handle of a side dropped) is C11's business
+                                        let (p, kd) = if m.st == St::Sent { ("C12", "second-send-accepted") } else { ("C11", "send-after-close-accepted") };
+                                        run.violate2(p, "C12", kd, format!("send(v{}) succeeded although the channel was already {}", id, if m.st == St::Sent { "used by an earlier send" } else { "closed" }));
+                                    } else {
+                                        if pend_unwoken >= 2 {
+                                            run.class(CL_TWO_PENDING_AT_SEND);
+                                        }
+                                        if pend_unwoken >= 3 {
+                                            run.class(CL_THREE_PENDING_WAKE_ALL);
+                                        }
+                                        m.st = St::Sent;
+                                        m.sent_id = Some(id);
+                                    }
+                                }
+                                Err(e) => {
+                                    let back = e.0;
+                                    if back.id != id {
+                                        run.violate("C12", "wrong-value-returned", format!("send(v{}) failed and returned v{}", id, back.id));
+                                    }
+                                    if m.st == St::Open {
+                                        run.violate(
+                                            closed_prop!(),
+                                            "send-rejected-while-open",
+                                            format!("send(v{}) was rejected although no value was sent, close() was not called and a sender and a receiver handle are alive", id),
+                                        );
+                                    }
+                                    keep!(back);
+                                }
+                            }
+        }};
+    }
     // verdict on the result of polling the receive future in a slot (model state `m` is current)
     macro_rules! judge_poll {
         ($s:expr, $w:expr, $r:expr, $was_pending:expr) => {{
@@ -381,7 +432,7 @@ fn run_m<M: RawMutex + 'static>(cfg: &Cfg, ops: &[Op], run: &mut Run) {
             }
         }};
     }
-    let reactive = cfg.y != 0 && (cfg.flavour == FL_CHECKED || cfg.flavour == FL_SHARED_CHECKED);
+    let reactive = (cfg.y == 1 || cfg.y == 2) && (cfg.flavour == FL_CHECKED || cfg.flavour == FL_SHARED_CHECKED);
     let mut rc: React<'_, M> = React { slots: std::ptr::null_mut(), mode: cfg.y, done: Vec::with_capacity(8) };
 
     monitors!();
@@ -419,43 +470,7 @@ fn run_m<M: RawMutex + 'static>(cfg: &Cfg, ops: &[Op], run: &mut Run) {
                             Chan::SB { tx, .. } => tx.borrow().as_ref().unwrap().send(val),
                         });
                         if let Some(r) = r {
-                            run.note(|| format!("send(v{}) -> {}", id, if r.is_ok() { "Ok" } else { "Err" }));
-                            if m.st != St::Open {
-                                run.class(CL_SECOND_SEND);
-                            }
-                            match r {
-                                Ok(()) => {
-                                    if m.st != St::Open {
-                                        // C12 itself says that a send after a close fails; whether the channel counts as
-                                        // closed (explicit close or last handle of a side dropped) is C11's business
-                                        let (p, kd) = if m.st == St::Sent { ("C12", "second-send-accepted") } else { ("C11", "send-after-close-accepted") };
-                                        run.violate2(p, "C12", kd, format!("send(v{}) succeeded although the channel was already {}", id, if m.st == St::Sent { "used by an earlier send" } else { "closed" }));
-                                    } else {
-                                        if pend_unwoken >= 2 {
-                                            run.class(CL_TWO_PENDING_AT_SEND);
-                                        }
-                                        if pend_unwoken >= 3 {
-                                            run.class(CL_THREE_PENDING_WAKE_ALL);
-                                        }
-                                        m.st = St::Sent;
-                                        m.sent_id = Some(id);
-                                    }
-                                }
-                                Err(e) => {
-                                    let back = e.0;
-                                    if back.id != id {
-                                        run.violate("C12", "wrong-value-returned", format!("send(v{}) failed and returned v{}", id, back.id));
-                                    }
-                                    if m.st == St::Open {
-                                        run.violate(
-                                            closed_prop!(),
-                                            "send-rejected-while-open",
-                                            format!("send(v{}) was rejected although no value was sent, close() was not called and a sender and a receiver handle are alive", id),
-                                        );
-                                    }
-                                    keep!(back);
-                                }
-                            }
+                            apply_send!(id, r, pend_unwoken);
                         }
                     }
                     _ => run.noops += 1,
@@ -539,6 +554,59 @@ fn run_m<M: RawMutex + 'static>(cfg: &Cfg, ops: &[Op], run: &mut Run) {
                     judge_poll!(s, op.b, r, was_pending);
                 }
                 None => run.noops += 1,
+            },
+            OP_POLL_RACE if cfg.y == 3 => match (
+                next_where(&slots, op.a, |s| s.pollable()),
+                match chan {
+                    Chan::S1 { tx, .. } => tx.borrow().is_some(),
+                    Chan::SB { tx, .. } => tx.borrow().is_some(),
+                    _ => true,
+                },
+            ) {
+                (Some(s), true) => match Tagged::fresh() {
+                    Some(val) => {
+                        run.class(CL_RACING_SEND);
+                        let was_pending = slots[s].pending();
+                        let id = val.id;
+                        let mut rc: RaceCtx<'_, M> = RaceCtx { chan, val: Some(val), res: None };
+                        tls::install_unlock_hook(&mut rc as *mut RaceCtx<'_, M> as usize, race_send::<M>);
+                        let r = slots[s].poll(op.b, run);
+                        let (fired, relocked) = tls::remove_unlock_hook();
+                        if !fired && !run.failed() {
+                            let rcp = &mut rc;
+                            run.call("send()", || unsafe { race_send::<M>(rcp as *mut RaceCtx<'_, M> as usize) });
+                        }
+                        run.note(|| format!("poll slot {} waker {} racing with send(v{}) (send ran inside the poll: {}, poll locked again afterwards: {})", s, op.b, id, fired, relocked));
+                        match rc.res.take() {
+                            Some(sr) if !run.failed() => {
+                                // one critical section per poll: the send came after the poll took effect; a poll
+                                // that locked again may have seen the value: then the send came first
+                                let saw_new = matches!(&r, Some(Poll::Ready(Some(t))) if t.id == id);
+                                if relocked && saw_new {
+                                    apply_send!(id, sr, pend_unwoken);
+                                    judge_poll!(s, op.b, r, was_pending);
+                                } else if relocked && matches!(&r, Some(Poll::Pending)) {
+                                    // order unknown: no verdict on Pending itself, the monitors decide whether the
+                                    // receiver has been woken
+                                    apply_send!(id, sr, pend_unwoken);
+                                } else {
+                                    judge_poll!(s, op.b, r, was_pending);
+                                    apply_send!(id, sr, pend_unwoken);
+                                }
+                            }
+                            _ => {
+                                if let Some(v) = rc.val.take() {
+                                    keep!(v);
+                                }
+                                if let Some(Poll::Ready(Some(t))) = r {
+                                    std::mem::forget(t);
+                                }
+                            }
+                        }
+                    }
+                    None => run.noops += 1,
+                },
+                _ => run.noops += 1,
             },
             OP_DROP => match next_where(&slots, op.a, |s| s.alive()) {
                 Some(s) => {
@@ -738,6 +806,25 @@ fn run_m<M: RawMutex + 'static>(cfg: &Cfg, ops: &[Op], run: &mut Run) {
                 return;
             }
         }
+    }
+}
+
+/// The send() of another thread that races with a poll (`tls::install_unlock_hook`).
+struct RaceCtx<'a, M: RawMutex + 'static> {
+    chan: &'a Chan<M>,
+    val: Option<Tagged>,
+    res: Option<Result<(), futures_intrusive::channel::ChannelSendError<Tagged>>>,
+}
+
+unsafe fn race_send<M: RawMutex + 'static>(ctx: usize) {
+    let rc = &mut *(ctx as *mut RaceCtx<'static, M>);
+    if let Some(val) = rc.val.take() {
+        rc.res = Some(match rc.chan {
+            Chan::B1(c) => c.send(val),
+            Chan::BB(c) => c.send(val),
+            Chan::S1 { tx, .. } => tx.borrow().as_ref().unwrap().send(val),
+            Chan::SB { tx, .. } => tx.borrow().as_ref().unwrap().send(val),
+        });
     }
 }
 
